@@ -248,6 +248,9 @@ func checkC11(c *Ctx) {
 	c.shared(checkC04, map[string]string{"O2 inheritance": "O1 derived-like-parent"})
 	// "the number of samples placed there by C03": the placement itself (shared with C03 O1/O2)
 	c.shared(checkC03, map[string]string{"O1 search-predicate": "O2 placed-by-search", "O1 search-range": "O2 placed-by-search", "O2 one-increment": "O2 placed-by-search", "O4 index-guard": "O2 placed-by-search"})
+	// "whose counter value is the sum of increments": Inc is one atomic add of its argument on every path and
+	// nothing else writes curr (shared with C01 O4; round 10)
+	c.shared(checkC01, map[string]string{"O4 inc": "O2 counter-sums-increments"})
 	// "one entry per metric" of every scope derived from the test scope: the walk visits the registry's own
 	// tables (where derivation registers scopes), under their lock
 	c.checkForEachScopeSource("O1 visits-registered-scopes")
